@@ -7,7 +7,7 @@
 //! delivery under a script-chosen `ConnectStyle`, monitor/manager reload at script-chosen points.
 //! The engine records facts only (NDJSON); the verdict is TLC's (spec/OnChainTrace.tla).
 //!
-//! usage: onchain [--scripts FILE] [--random N --profile c06|c07|c07r --seed S] --out TRACE
+//! usage: onchain [--scripts FILE] [--random N --profile c06|c06t|c07|c07r --seed S] --out TRACE
 
 use bitcoin::hashes::Hash as _;
 use bitcoin::secp256k1::Secp256k1;
@@ -501,7 +501,7 @@ impl Net {
 				wal.push(ws.as_ref().map(|s| self.outs.get(&i.previous_output).map(|o| &o.script_pubkey == s).unwrap_or(false)).unwrap_or(false));
 				ins.push(self.opj(&i.previous_output));
 			}
-			self.ev(json!({"ev":"bcast","by":by,"tx":id,"dup":true,"h":h,"kind":kind,"ins":ins,"wal":wal,"outs":[],"fee":0,"weight":0,"feerate":0,"pfeerate":0,"locktime":0,"valid":true,"final":true,"sweep":false}));
+			self.ev(json!({"ev":"bcast","by":by,"tx":id,"dup":true,"h":h,"kind":kind,"ins":ins,"wal":wal,"outs":[],"fee":0,"weight":0,"inval":0,"feerate":0,"pfeerate":0,"locktime":0,"valid":true,"final":true,"sweep":false}));
 			return;
 		}
 		self.register_outputs(&tx);
@@ -539,7 +539,7 @@ impl Net {
 		let stale = tx.input.iter().any(|i| self.spent.get(&i.previous_output).map(|t| *t != txid && self.conf.get(t).map(|c| *c + 6 <= h + 1).unwrap_or(false)).unwrap_or(false));
 		let repl: Vec<usize> = self.mempool.iter().filter(|m| m.tx.input.iter().any(|i| tx.input.iter().any(|j| j.previous_output == i.previous_output))).map(|m| m.id).collect();
 		self.ev(json!({"ev":"bcast","by":by,"tx":id,"dup":false,"h":h,"kind":kind,"ins":ins,"wal":wal,"outs":outs,"repl":repl,"stale":stale,
-			"fee":fee,"weight":weight,"feerate":feerate,"pfeerate":pfeerate,"locktime":tx.lock_time.to_consensus_u32(),"valid":valid,"final":fin,"sweep":false}));
+			"fee":fee,"weight":weight,"inval":inval,"feerate":feerate,"pfeerate":pfeerate,"locktime":tx.lock_time.to_consensus_u32(),"valid":valid,"final":fin,"sweep":false}));
 		self.mempool.push(MemTx { tx, txid, id, by, valid, fee, weight, sweep: false });
 	}
 
@@ -1469,8 +1469,54 @@ fn late_preimage_reorg_script(rng: &mut StdRng) -> Value {
 		"history":history,"close":close,"chain":chain,"family":"late_preimage_reorg"})
 }
 
+/// A revoked commitment whose justice claims are kept out of the blocks until the cheater's CSV delay
+/// (to_self_delay, 144 blocks at least) has almost run out, delivered block by block near that height:
+/// does the victim re-issue its claims at the pace the shrinking window demands?  Second-stage
+/// transactions of the cheater confirm on the way (their outputs have a later expiry).
+fn csv_race_script(rng: &mut StdRng) -> Value {
+	let types = ["static", "anchors", "zerofee"];
+	let owner = rng.gen_range(0..2usize);
+	let victim = 1 - owner;
+	let (history, _) = random_history(rng, true, owner);
+	let close = json!({"kind":"revoked","owner":owner,"k":"mark"});
+	let mut chain: Vec<Value> = Vec::new();
+	let first = if rng.gen_bool(0.5) { json!([]) } else { agent_sel(rng) };
+	chain.push(json!({"op":"mine","who":[AGENT],"agent_htlcs":first}));
+	// blocks connected since the commitment confirmed
+	let mut gone = 0u64;
+	let stop = 144 - rng.gen_range(18..26u64);
+	if rng.gen_bool(0.4) {
+		let k = rng.gen_range(1..40u64);
+		chain.push(json!({"op":"mine","who":"none","n":k}));
+		chain.push(json!({"op":"mine","who":[AGENT],"agent_htlcs":agent_sel(rng)}));
+		gone += k + 1;
+	}
+	if rng.gen_bool(0.3) {
+		let v = [253u32, 500, 1000][rng.gen_range(0..3)];
+		chain.push(json!({"op":"feerate","node":victim,"v":v}));
+	}
+	while gone < stop {
+		let k = (stop - gone).min(rng.gen_range(20..70));
+		chain.push(json!({"op":"mine","who":"none","n":k}));
+		gone += k;
+		if rng.gen_bool(0.15) { chain.push(json!({"op":"reload","node":victim})); }
+	}
+	// the last blocks before (and a few after) the expiry, one at a time
+	for _ in 0..(144 - stop + rng.gen_range(0..4)) {
+		chain.push(json!({"op":"mine","who":"none","n":1}));
+		let r = rng.gen_range(0..100);
+		if r < 4 { chain.push(json!({"op":"reload","node":victim})); }
+		else if r < 8 { chain.push(json!({"op":"rebroadcast","node":victim})); }
+	}
+	chain.push(json!({"op":"settle"}));
+	json!({"cfg":{"chan_type":types[rng.gen_range(0..3)],"value":1_000_000,"push":([100_000_000u64, 400_000_000, 500_000_000][rng.gen_range(0..3)]),
+		"feerate":([253u32, 253, 1000][rng.gen_range(0..3)]),"style":[rng.gen_range(0..11), rng.gen_range(0..11)]},
+		"history":history,"close":close,"chain":chain,"family":"csv_race"})
+}
+
 fn random_script(rng: &mut StdRng, profile: &str) -> Value {
 	if profile == "c07r" { return late_preimage_reorg_script(rng); }
+	if profile == "c06t" { return csv_race_script(rng); }
 	if profile != "c06" && rng.gen_range(0..100) < 30 { return fee_trajectory_script(rng); }
 	let types = ["static", "anchors", "zerofee"];
 	let chan_type = types[rng.gen_range(0..3)];
@@ -1484,6 +1530,7 @@ fn random_script(rng: &mut StdRng, profile: &str) -> Value {
 	if c06 {
 		close = if rng.gen_bool(0.7) { json!({"kind":"revoked","owner":owner,"k":"mark"}) } else { json!({"kind":"revoked","owner":owner,"k":rng.gen_range(0..8)}) };
 		let victim = 1 - owner;
+		let mut est_v: u32 = if victim == 0 { feerate } else { 253 };
 		// the revoked commitment confirms, possibly together with some HTLC-success transactions
 		let first = if rng.gen_bool(0.4) { json!([]) } else { agent_sel(rng) };
 		chain.push(json!({"op":"mine","who":[AGENT],"agent_htlcs":first}));
@@ -1501,11 +1548,17 @@ fn random_script(rng: &mut StdRng, profile: &str) -> Value {
 			} else if r < 75 {
 				chain.push(json!({"op":"to_expiry","htlc":rng.gen_range(0..4),"who":"none","off":rng.gen_range(0..2)}));
 				chain.push(json!({"op":"mine","who":[AGENT],"agent_htlcs":agent_sel(rng)}));
-			} else if r < 83 {
-				chain.push(json!({"op":"feerate","node":victim,"v":([253u32, 1000, 5000, 20000][rng.gen_range(0..4)])}));
-			} else if r < 90 {
+			} else if r < 82 {
+				est_v = [253u32, 1000, 5000, 20000][rng.gen_range(0..4)];
+				chain.push(json!({"op":"feerate","node":victim,"v":est_v}));
+			} else if r < 88 {
+				// the estimate rises while a claim is pending; the application asks for a rebroadcast
+				est_v = est_v.saturating_mul(rng.gen_range(2..12)).min(40_000);
+				chain.push(json!({"op":"feerate","node":victim,"v":est_v}));
 				chain.push(json!({"op":"rebroadcast","node":victim}));
-			} else if r < 95 {
+			} else if r < 93 {
+				chain.push(json!({"op":"rebroadcast","node":victim}));
+			} else if r < 96 {
 				chain.push(json!({"op":"style","node":victim,"v":rng.gen_range(0..11)}));
 			} else {
 				chain.push(json!({"op":"mine","who":[AGENT, victim],"agent_htlcs":agent_sel(rng),"prefer": if rng.gen_bool(0.5) {"new"} else {"old"}}));
